@@ -34,6 +34,11 @@ void use()
     std::string keep("k");
     fs.take_moved(keep);
     fs.take_forwarded(keep);
+    fwd_twice ft;
+    ft.twice([](std::vector<std::string>& x) { x.push_back("a"); });
+    ft.once([](std::vector<std::string>& x) { x.push_back("a"); });
+    (void)ft.steal(0);
+    (void)ft.copy_then_move(0);
     bad_cv f;
     f.set();
     f.wait();
